@@ -56,6 +56,7 @@ def reader_stubs(reader):
         is_err = i == reader.err_at
         present = z3.ULT(i, reader.len)
         st.events.append(("peek", i))
+        st.notes["pk"] = True
         return mk_result(engine, is_err, mk_option(present, Int(reader.at(i), "u8")), io_error())
 
     def h_next(engine, st, fr, callee, argv, m):
@@ -64,12 +65,19 @@ def reader_stubs(reader):
         present = z3.ULT(i, reader.len)
         st.events.append(("next", i))
         st.notes["idx"] = z3.If(z3.And(z3.Not(is_err), present), i + 1, i)
+        st.notes["pk"] = False
         return mk_result(engine, is_err, mk_option(present, Int(reader.at(i), "u8")), io_error())
 
     def h_discard(engine, st, fr, callee, argv, m):
         i = cur(st)
         st.events.append(("discard", i))
         st.notes["idx"] = i + 1
+        # reader protocol: discard() drops the byte a preceding peek() looked at.  For a stream it is a no-op when nothing is
+        # pending, for a slice it always advances: a discard that is KNOWN to follow a consuming read with no peek in between
+        # makes the sources disagree (unknown = function entered / loop re-entered / sibling called since: not judged)
+        if st.notes.get("pk") is False:
+            return ("fork", [(z3.BoolVal(True), ("panic", "discard() without a pending peek(): the stream source ignores it, the slice and str sources skip a byte"), None)])
+        st.notes["pk"] = False
         return UnitV()
 
     def h_position(engine, st, fr, callee, argv, m):
@@ -400,7 +408,18 @@ def h_vec_as_slice(engine, st, fr, callee, argv, m):
     return Ref(("V", sl))
 
 
+def h_vec_index(engine, st, fr, callee, argv, m):
+    """scratch[i]: the i-th pushed byte when the claim tracks the buffer item by item and i is concrete, else an arbitrary byte"""
+    items = st.notes.get("scratch", ())
+    i = argv[1]
+    c = z3.simplify(i.e) if isinstance(i, Int) else None
+    if c is not None and z3.is_bv_value(c) and c.as_long() < len(items) and items[c.as_long()][0] == "byte":
+        return Ref(("V", items[c.as_long()][1]))
+    return Ref(("V", engine.sym_int("u8", "scratch_at")))
+
+
 SCRATCH_STUBS = [
+    (rx(r"^<Vec<u8> as (?:std::ops::)?Index<usize>>::index$"), h_vec_index),
     (rx(r"^Vec::<u8>::as_slice$"), h_vec_as_slice),
     (rx(r"^Vec::<u8>::clear$"), h_vec_clear),
     (rx(r"^itoa::Buffer::new$"), h_itoa_new),
@@ -500,8 +519,8 @@ CORE_STUBS = [
     (rx(r"^(?:core::fmt::)?Arguments::<'_>::from_str$"), lambda e, st, fr, c, a, m: Opaque("fmtargs", "literal", {"template": bytes_of(e, a[0])})),
     (rx(r"^(?:char::methods::<impl char>::|core::char::|char::)?from_u32$"), h_from_u32),
     (rx(r"^char::methods::<impl char>::encode_utf8$"), h_encode_utf8),
-    (rx(r"^<std::ops::Range<u8> as IntoIterator>::into_iter$"), h_range_into_iter),
-    (rx(r"^<std::ops::Range<u8> as Iterator>::next$"), h_range_next),
+    (rx(r"^<std::ops::Range<(?:u8|u16|u32|u64|usize)> as IntoIterator>::into_iter$"), h_range_into_iter),
+    (rx(r"^<std::ops::Range<(?:u8|u16|u32|u64|usize)> as Iterator>::next$"), h_range_next),
     (rx(r"^std::ops::RangeInclusive::<u8>::contains::<u8>$"), h_range_incl_contains),
     (rx(r"^<F as FnOnce<.*>>::call_once$"), h_call_once),
     (rx(r"^(?:core::str::|std::str::)?from_utf8$"), h_from_utf8),
@@ -696,7 +715,14 @@ def h_res_ok_err(engine, st, fr, callee, argv, m):
     return EnumV("Option", z3.If(r.discr == which, z3.BitVecVal(1, 64), z3.BitVecVal(0, 64)), {1: list(r.variants.get(which, [UNINIT]))})
 
 
+def h_opt_or_else(engine, st, fr, callee, argv, m):
+    opt, cl = argv
+    f = closure_fn(engine, cl)
+    return ("fork", [(opt.discr == 1, opt, None), (opt.discr != 1, ("frame", f, fargs(f, cl, []), None), None)])
+
+
 GENERIC_COMBINATORS = [
+    (rx(r"^(?:std::option::)?Option::<.*>::or_else::<"), h_opt_or_else),
     (rx(r"^(?:std::option::)?Option::<.*>::map_or::<"), h_opt_map_or),
     (rx(r"^(?:std::option::)?Option::<.*>::(map|and_then)::<"), h_opt_map),
     (rx(r"^(?:std::option::)?Option::<.*>::is_some_and::<"), h_opt_is_some_and),
